@@ -177,7 +177,8 @@ PREDS = [lambda v: v, lambda v: None, _self(lambda v: key(v) % 2 == 0), _self(la
          lambda v: FLAG if key(v) % 2 == 0 else None, lambda v: (v,) if key(v) > 0 else None,
          lambda v: int(key(v)) if key(v) % 3 == 0 else None]
 FUNS = [lambda v: v, lambda v: key(v) + 100, lambda v: -key(v), lambda v: wrap64(key(v) * key(v)), lambda v: (v,),
-        lambda v: FLAG, lambda v: int(key(v))]
+        lambda v: FLAG, lambda v: int(key(v)), lambda v: v]
+PROBE = 7       # map 7 = the identity that records what it is applied to: makes the accesses of the view above it observable
 
 
 def accepts(pid, v):
@@ -302,6 +303,41 @@ def ev(e, leaves):
     raise ValueError(k)
 
 
+def has_probe(e):
+    return any(n['k'] == 'map' and n['id'] % len(FUNS) == PROBE for n in nodes(e))
+
+
+def access_spec(e, ctx):
+    """(forward, backward): the items of the input of a probe (map 7 X) that a full forward / backward walk of the view e
+    touches, in order - where the property text and the definitions fix them; None = nothing demanded (compared with the
+    model only).  Rules: Map / Filter / enumerate walk their input completely, once, in walking order.  A Slice enters its
+    input from the end its walk starts at and never goes beyond the far end of its selection: a walk entering at the front
+    touches positions 0..hi, one entering at the back n-1..lo (lo, hi = lowest / highest selected position), nothing if
+    nothing is selected: 'a view never reads outside the part it selects' + no look-ahead once its own Range is exhausted."""
+    k = e['k']
+    if not has_probe(e):
+        ev(e, ctx)                                 # keeps the identity numbering in step
+        return [], []
+    if sum(1 for n in nodes(e) if n['k'] == 'map' and n['id'] % len(FUNS) == PROBE) > 1:
+        return None                                # several probes write one log: compared with the model only
+    if k == 'map' and e['id'] % len(FUNS) == PROBE and not has_probe(e['sub'][0]):
+        xs = ev(e['sub'][0], ctx)
+        return xs, xs[::-1]
+    if k in ('filter', 'map') or (k == 'enum' and haslen(e['sub'][0])):
+        return access_spec(e['sub'][0], ctx)
+    if k in ('slice', 'rev'):
+        u = e['sub'][0]
+        if u['k'] == 'map' and u['id'] % len(FUNS) == PROBE and not has_probe(u['sub'][0]) and haslen(u):
+            xs = ev(u['sub'][0], ctx)
+            st = slice_params(e['args'], len(xs)) if k == 'slice' else (0, len(xs), -1)
+            sel = positions(*st)
+            if not sel:
+                return [], []
+            front, back = xs[:max(sel) + 1], xs[min(sel):][::-1]
+            return (front, back) if st[2] > 0 else (back, front)
+    return None
+
+
 def sections(line):
     d = {}
     for part in line.split(';'):
@@ -329,8 +365,8 @@ def oracle(case, impl, spec=None):
     if died and 'build' not in d:
         # the child died in the middle of a section: every section before it is complete and judged as usual below
         names = {'len': 'len', 'leaf': 'the walk of a Table/Tree leaf', 'fwd': 'forward iteration', 'bwd': 'backward iteration',
-                 'get': 'get(0..len-1)', 'gx': 'get beyond the ends', 'sl': 'the dump', 'tab': 'the dump', 'hist': 'the dump'}
-        order = ['len', 'leaf', 'fwd', 'bwd', 'get', 'gx', 'sl', 'tab', 'hist']
+                 'af': 'forward iteration', 'ab': 'backward iteration', 'get': 'get(0..len-1)', 'gx': 'get beyond the ends', 'sl': 'the dump', 'tab': 'the dump', 'hist': 'the dump'}
+        order = ['len', 'leaf', 'fwd', 'af', 'bwd', 'ab', 'get', 'gx', 'sl', 'tab', 'hist']
         missing = [k for k in order if k not in d]
         last = order[order.index(missing[0]) - 1] if missing and missing[0] != 'len' else None
         # the section that was being printed is the first missing one (its header is flushed only with its content)
@@ -380,6 +416,16 @@ def oracle(case, impl, spec=None):
             return died_msg or '%s: no result (%s)' % (what, impl[-60:])
         if items(d[sec]) != w:
             return '%s yields %s, must be %s' % (what, d[sec][:200], ','.join(w)[:200])
+    if 'af' in d and 'ab' in d:
+        try:
+            acc = access_spec(e, LeafCtx(iter(lv)))
+        except Undef:
+            acc = None
+        if acc is not None:
+            for sec, w, what in (('af', acc[0], 'the forward walk'), ('ab', acc[1], 'the backward walk')):
+                w = [show(v) for v in w]
+                if items(d[sec]) != w:
+                    return '%s touches the items %s of the probed input, must touch exactly %s' % (what, d[sec][:200] or 'none', ','.join(w)[:200] or 'none')
     if haslen(e) and hasget(e):
         if 'get' not in d:
             return died_msg or 'get: no result (%s)' % impl[-60:]
@@ -418,7 +464,7 @@ def corr(case, impl, model):
     if impl == model:
         return None
     a, b = sections(impl), sections(model)
-    for k in ('build', 'len', 'leaf', 'fwd', 'bwd', 'get', 'gx', 'sl', 'tab', 'hist'):
+    for k in ('build', 'len', 'leaf', 'fwd', 'af', 'bwd', 'ab', 'get', 'gx', 'sl', 'tab', 'hist'):
         if a.get(k) != b.get(k):
             return 'section %s: implementation %s / model %s' % (k, str(a.get(k))[:200], str(b.get(k))[:200])
     return 'implementation %s / model %s' % (impl[-100:], model[-100:])
@@ -604,17 +650,19 @@ def shrink_candidates(e):
             yield dict(e, sub=e['sub'][:i] + [c] + e['sub'][i + 1:])
 
 
-def shrink(case, fails, budget=400):
+def shrink(case, fails, budget=400, seconds=60):
+    import time
+    t0 = time.time()
     try:
         e = parse_case(case)
     except Exception:
         return case
     improved = True
-    while improved and budget > 0:
+    while improved and budget > 0 and time.time() - t0 < seconds:
         improved = False
         for c in shrink_candidates(e):
             budget -= 1
-            if budget <= 0:
+            if budget <= 0 or time.time() - t0 > seconds:
                 break
             s = unparse(c)
             try:
@@ -712,6 +760,38 @@ def gen_answer(rng, maxlen=9):
     elif r < .55: e = {'k': 'zip', 'sub': [e, {'k': 'range', 'args': [rng.randrange(0, 12)], 'sub': []}][::rng.choice([1, -1])]}
     elif r < .6: e = {'k': 'zip', 'sub': [e]}
     return e
+
+
+def gen_probe(rng, maxlen=9):
+    """a view over map(probe, X): the accesses of the view to X become observable"""
+    x = gen_history(rng, rng.choice(KINDS), 6) if rng.random() < .2 else leaf(rng, maxlen)
+    pr = {'k': 'map', 'id': PROBE, 'sub': [x]}
+    r = rng.random()
+    try:
+        n = len(ev(x, iter([sorted(set(y['xs'])) for y in nodes(x) if y['k'] in ('tab', 'tree')])))
+    except Exception:
+        n = 3
+    if r < .55: e = {'k': 'slice', 'args': slice_args(rng, n), 'sub': [pr]}
+    elif r < .65: e = {'k': 'rev', 'sub': [pr]}
+    elif r < .75: e = {'k': 'filter', 'id': rng.randrange(len(PREDS)), 'sub': [pr]}
+    elif r < .85: e = {'k': 'zip', 'sub': [pr, {'k': 'range', 'args': [rng.randrange(0, 9)], 'sub': []}][::rng.choice([1, -1])]}
+    elif r < .9: e = {'k': 'enum', 'sub': [pr]}
+    else: e = {'k': 'map', 'id': rng.randrange(len(FUNS)), 'sub': [pr]}
+    r = rng.random()
+    if r < .15: e = {'k': 'slice', 'args': slice_args(rng, 4), 'sub': [e]}
+    elif r < .25: e = {'k': 'filter', 'id': rng.randrange(len(PREDS)), 'sub': [e]}
+    elif r < .3: e = {'k': 'rev', 'sub': [e]}
+    return e
+
+
+def probe_boundary():
+    out = []
+    for u in ('arr 1,2,3,4', 'list 1,2,3,4,5', 'tup 1,2,3', 'tab 1,2,3,4', 'tree 1,2,3,4', 'range 5', 'listh n1,2,3,4/x0/p9', 'arr -', 'arr 7'):
+        for a in ('0,2', '1,3', '_,_,2', '1,_,2', '_,_,3', '_,-1', '_,_,-1', '_,_,-2', '1,-1,-2', '2', '3,1', '-2,_', '_,_,5', '0,0'):
+            out.append('slice %s map 7 %s' % (a, u))
+        out += ['rev map 7 %s' % u, 'map 7 %s' % u, 'filter 2 map 7 %s' % u, 'enum map 7 %s' % u, 'zip 2 map 7 %s range 2' % u,
+                'zip 2 range 2 map 7 %s' % u, 'slice 0,2 filter 0 map 7 %s' % u, 'filter 6 slice 1,3 map 7 %s' % u, 'slice 0,1 slice 0,3 map 7 %s' % u]
+    return out
 
 
 def answer_boundary():
@@ -939,7 +1019,7 @@ def run(ctx):
             model_broken = str(e)
             ctx.notes.append('model does not build against the regenerated Generated.v: ' + model_broken[-600:])
     h = ctx.build_harness('iter_walk.c', whitebox='Table')
-    henv = dict(os.environ, H_TIMEOUT='4')          # a case takes microseconds; a hang is an observation (TIMEOUT)
+    henv = dict(os.environ, H_TIMEOUT='2')          # a case takes microseconds; a hang is an observation (TIMEOUT)
     stats = {'forked': 0, 'inprocess': 0}
 
     def hybrid(exe, env):
@@ -949,7 +1029,13 @@ def run(ctx):
             out = []
             for i in range(0, len(cs), 1000):
                 chunk = cs[i:i + 1000]
-                rc, lines, err = ctx.run_lines(exe, chunk, env=dict(env, H_NOFORK='1'), timeout=60)
+                # one plain process for the chunk (not run_lines: its stall handling would retry a hanging in-process run);
+                # a handful of cases (shrinking, replay) go straight to the forked mode
+                rc, o, err = vlib.sh([exe], input='\n'.join(chunk) + '\n', timeout=25, env=dict(env, H_NOFORK='1')) \
+                    if len(chunk) > 8 else (1, '', '')
+                lines = o.split('\n')
+                if lines and lines[-1] == '':
+                    lines.pop()
                 if rc != 0 or len(lines) != len(chunk) or any(l.startswith('HARNESS-') for l in lines):
                     rc, lines, err = ctx.run_lines(exe, chunk, env=env, timeout=3000)
                     stats['forked'] += len(chunk)
@@ -997,7 +1083,7 @@ def run(ctx):
                 ctx.notes.append('open finding %s no longer reproduces on its witness %s' % (f['signature'], probe))
 
     d.feed(CORPUS, 'corpus')
-    d.feed(boundary_cases() + history_boundary() + answer_boundary(), 'boundary')
+    d.feed(boundary_cases() + history_boundary() + answer_boundary() + probe_boundary(), 'boundary')
     rng = ctx.rng
     if quick:
         B = 12
@@ -1017,6 +1103,7 @@ def run(ctx):
                                                  kind, a_s(contents(rng, n, kind))))
         cases += [big_range(rng) for _ in range(1500)]
         cases += [unparse(gen_answer(rng)) for _ in range(4000)]
+        cases += [unparse(gen_probe(rng)) for _ in range(5000)]
         # every container kind after a seeded mutation history, bare and under one view
         for kind in KINDS:
             cases += [unparse(gen_history(rng, kind)) for _ in range(4000)]
@@ -1042,6 +1129,7 @@ def run(ctx):
                                                  kind, a_s(contents(rng, n, kind))))
         cases += [big_range(rng) for _ in range(20000)]
         cases += [unparse(gen_answer(rng, rng.choice([9, 20]))) for _ in range(60000)]
+        cases += [unparse(gen_probe(rng, rng.choice([9, 20]))) for _ in range(60000)]
         for kind in KINDS:
             cases += [unparse(gen_history(rng, kind, rng.choice([6, 12, 20]))) for _ in range(40000)]
             cases += [rng.choice(['rev %s', 'slice _,_,2 %s', 'slice 1,-1 %s', 'enum %s', 'filter 2 %s', 'map 1 %s', 'zip 2 %s range 4', 'slice _,_,-2 %s'])
@@ -1082,7 +1170,7 @@ def run(ctx):
             print('CORR', x[0], '\n   ', x[4])
 
     def extra(dd):
-        dd.feed(answer_boundary() + [unparse(gen_answer(rng)) for _ in range(10000)])
+        dd.feed(answer_boundary() + probe_boundary() + [unparse(gen_answer(rng)) for _ in range(10000)] + [unparse(gen_probe(rng)) for _ in range(10000)])
         dd.feed([unparse(gen_expr(rng, rng.choice([1, 2, 3]), 9)) for _ in range(20000)])
         preshrink()
     preshrink()
